@@ -316,6 +316,7 @@ func c06Jobs(thorough bool) []c06Job {
 			{L8, q3b2f, 0, 2}, {L8, q2b1f, 0, 2}, {L5, q2b2, 1, 1},
 			{L1, q3b2f, 0, 1}, {L4, q2b2, 1, 0}, {L10, q4b2buf1, 1, 0},
 			{L11, q2b1, 1, 0}, {L11, q2b2, 1, 0},
+			{L7, q2b1, 1, 0}, {L7, q2b1f, 0, 1}, // a Shutdown cut short, then another: where two recorded findings show
 		}
 	}
 	var js []c06Job
